@@ -152,9 +152,36 @@ def f_orientate3 : Family :=
   { name := "orientate3", kind := .poly, keys := [[]], nOut := fun _ => 9,
     spec := fun _ j => mmul (mmul (axisM 1 (v 2)) (axisM 0 (v 0))) (axisM 2 (v 1)) (j / 3) (j % 3) }
 
+
+/-! `eulerAngles(q) = (pitch, yaw, roll)` (documented as the angles with `quat(eulerAngles q)` the same rotation):
+    `roll  = atan2(2(xy + wz), w² + x² − y² − z²)`, `pitch = atan2(2(yz + wx), w² − x² − y² + z²)` — with the guard against
+    `atan2(0, 0)`: when both arguments are within `epsilon` of 0 (gimbal lock) roll is 0 and pitch is `2 atan2(x, w)` —
+    and `yaw = asin(clamp(−2(xz − wy), −1, 1))`.  The specification states the guard as `|a| ≤ ε ∧ |b| ≤ ε` (walk mode:
+    the traced tree spells `abs` out as decisions). -/
+def qw : E := qc 0 0
+def qx : E := qc 0 1
+def qy : E := qc 0 2
+def qz : E := qc 0 3
+def eps : E := .konst .eps
+def near0 (a : E) : C := .and (.le a eps) (.le (.neg a) eps)
+def atan2E (y x : E) : E := .call2 .atan2 y x
+def rollY : E := .mul two (.add (.mul qx qy) (.mul qw qz))
+def rollX : E := .sub (.sub (.add (sq qw) (sq qx)) (sq qy)) (sq qz)
+def pitchY : E := .mul two (.add (.mul qy qz) (.mul qw qx))
+def pitchX : E := .add (.sub (.sub (sq qw) (sq qx)) (sq qy)) (sq qz)
+def yawS : E := .mul (.lit (-2) 1) (.sub (.mul qx qz) (.mul qw qy))
+def eulerT (j : Nat) : Tree :=
+  if j = 0 then .branch (.and (near0 pitchX) (near0 pitchY)) (.leaf (.mul two (atan2E qx qw))) (.leaf (atan2E pitchY pitchX))
+  else if j = 1 then .branch (.lt yawS (.lit (-1) 1)) (.leaf (.call1 .asin (.lit (-1) 1)))
+    (.branch (.lt one yawS) (.leaf (.call1 .asin one)) (.leaf (.call1 .asin yawS)))
+  else .branch (.and (near0 rollX) (near0 rollY)) (.leaf zero) (.leaf (atan2E rollY rollX))
+def f_eulerAngles : Family :=
+  { name := "eulerAngles", kind := .poly, treeMode := true, treeWalk := true, keys := cfgs, nOut := fun _ => 3,
+    spec := fun _ _ => zero, specT := fun _ j => eulerT j }
+
 def families : List Family :=
   [f_qmul, f_qcross, f_qmulv3, f_qmulv4, f_vmulq3, f_mat3cast, f_mat4cast, f_mat3ofprod, f_mat3orth, f_conjugate,
    f_qinverse, f_qinverse_id, f_qdot, f_qlength, f_qnormalize, f_qadd, f_qsub, f_qneg, f_qmuls, f_qdivs,
-   f_angleAxis, f_quatEuler, f_euler1, f_euler2, f_euler3, f_yawPitchRoll, f_orientate4, f_orientate3]
+   f_angleAxis, f_quatEuler, f_euler1, f_euler2, f_euler3, f_yawPitchRoll, f_orientate4, f_orientate3, f_eulerAngles]
 
 end Glm.Spec.C04
